@@ -451,6 +451,46 @@ func displayExpected(start time.Time, input []byte) []byte {
 // the concatenation of their valid frames (the expectation by construction,
 // independent of the code under test).
 func appInputX(r *ref.SplitMix64, i int) (in []byte, frames []byte, known bool) {
+	if i%23 == 11 {
+		// a long stretch of text or binary without a start-of-frame byte (its readable
+		// form is several times as long), and frames of the greatest lengths
+		var s gen.Stream
+		s = append(s, gen.RandFrame(r))
+		n := r.Range(13000, 24000)
+		if r.Chance(1, 2) {
+			const sentence = "$GNGGA,092751.000,5321.6802,N,00630.3371,W,1,8,1.03,61.7,M,55.3,M,,*75\r\n"
+			txt := make([]byte, n)
+			for j := range txt {
+				txt[j] = sentence[j%len(sentence)]
+			}
+			s = append(s, gen.Seg{Kind: "junk", Type: -1, Bytes: txt})
+		} else {
+			s = append(s, gen.Seg{Kind: "junk", Type: -1, Bytes: gen.NoD3(r.Bytes(n))})
+		}
+		for _, l := range []int{1023, 1022, 1021, 1020} {
+			if r.Chance(1, 2) {
+				s = append(s, gen.CleanStream(r, gen.CleanOpts{MinFrames: 1, MaxFrames: 1, ForceLen: l})...)
+			}
+		}
+		s = append(s, gen.RandFrame(r))
+		for _, g := range s {
+			if g.Kind == "frame" {
+				frames = append(frames, g.Bytes...)
+			}
+		}
+		return s.Bytes(), frames, true
+	}
+	if i%23 == 17 {
+		// things that are not frames although their last three bytes are the CRC of the
+		// rest (a reserved bit set or a zero length field in the leader), among frames;
+		// what survives is decided by the same build's framing (which C01 judges)
+		var b []byte
+		for j := r.Range(2, 5); j > 0; j-- {
+			b = append(b, gen.SelfConsistentNonFrame(r).Bytes...)
+			b = append(b, gen.RandFrame(r).Bytes...)
+		}
+		return b, nil, false
+	}
 	switch i % 7 {
 	case 2, 5, 6:
 		s := gen.CleanStream(r, gen.CleanOpts{MinFrames: 1, MaxFrames: 8, TruncTail: i%7 != 2})
@@ -505,6 +545,10 @@ func appInputX(r *ref.SplitMix64, i int) (in []byte, frames []byte, known bool) 
 
 // appInput generates an input for the applications.
 func appInput(r *ref.SplitMix64, i int) []byte {
+	if i%23 == 11 || i%23 == 17 {
+		in, _, _ := appInputX(r, i)
+		return in
+	}
 	switch i % 7 {
 	case 0:
 		return append([]byte(nil), testdata.MessageBatchWithJunk...)
@@ -659,19 +703,23 @@ func monC11(c *child.Ctx, replay json.RawMessage) {
 		var cases []appCase
 		for i := 0; i < n/2; i++ {
 			in := appInput(r, i)
-			if len(in) > 20000 {
+			if len(in) > 20000 && i%23 != 11 {
 				in = in[:20000]
 			}
 			mode, us := writerProfile(r)
 			if mode == "block" && len(in) > 1500 {
-				in = in[:1500]
+				if i%23 == 11 {
+					mode, us = "sleep", 300
+				} else {
+					in = in[:1500]
+				}
 			}
 			k := appCase{ID: i + 1, App: app, Input: hexs(in), Chunk: []int{1, 16, 300, 0}[r.Intn(4)], ReaderUs: []int{0, 0, 50}[r.Intn(3)],
 				WriterMode: mode, WriterUs: us, Procs: []int{1, 2, 16}[r.Intn(3)], StartMs: fixedStart.UnixMilli()}
 			if app == "rtcmfilter" {
 				// every configuration of the optional logs
 				k.Display, k.Record = i%4 >= 2, i%2 == 1
-				if k.Display && len(in) > 3000 {
+				if k.Display && len(in) > 3000 && i%23 != 11 {
 					k.Input = hexs(in[:3000])
 				}
 			}
@@ -876,7 +924,7 @@ func monC10(c *child.Ctx, replay json.RawMessage) {
 	var cases []appCase
 	for i := 0; i < n; i++ {
 		in, frames, known := appInputX(r, i)
-		if len(in) > 12000 {
+		if len(in) > 12000 && i%23 != 11 {
 			in = in[:12000]
 			known = false
 		}
@@ -886,9 +934,33 @@ func monC10(c *child.Ctx, replay json.RawMessage) {
 		}
 		k := appCase{ID: i + 1, App: "rtcmfilter", Input: hexs(in), Expect: hexs(frames), HasExpect: known, Display: i%4 >= 2, Record: i%2 == 1, Chunk: []int{1, 16, 300, 0, 5000}[r.Intn(5)], ReaderUs: []int{0, 0, 50}[r.Intn(3)], EOFWithData: r.Chance(1, 3),
 			WriterMode: mode, WriterUs: us, Procs: []int{1, 2, 4, 16}[r.Intn(4)], StartMs: fixedStart.UnixMilli()}
-		if k.Display && len(in) > 4000 {
+		if k.Display && len(in) > 4000 && i%23 != 11 {
 			k.Input = hexs(in[:4000])
 			k.HasExpect = false
+		}
+		if i == 5 || (c.Thorough() && i%200 == 5) {
+			// a live session: a second or more of small frames arriving one by one while
+			// the output line is slow (the time a write takes grows with its size)
+			var live, lf []byte
+			for j := r.Range(150, 250); j > 0; j-- {
+				var f gen.Seg
+				for {
+					f = gen.RandFrame(r)
+					if len(f.Bytes) <= 40 {
+						break
+					}
+				}
+				live = append(live, f.Bytes...)
+				lf = append(lf, f.Bytes...)
+				if r.Chance(1, 4) {
+					live = append(live, []byte("$GPTXT,live*00\r\n")[:r.Range(1, 16)]...)
+				}
+			}
+			k.Input, k.Expect, k.HasExpect = hexs(live), hexs(lf), true
+			k.Chunk, k.ReaderUs, k.EOFWithData = 40, r.Range(9000, 15000), false
+			k.WriterMode, k.WriterUs = "perbyte", r.Range(30, 80)
+			k.Display = false
+			c.Count("live_sessions", 1)
 		}
 		cases = append(cases, k)
 	}
